@@ -180,6 +180,8 @@ class Flow:
                 blk = self.body.blocks[ubb]
                 if uidx == 'term':
                     t = blk['term']
+                    if mode.startswith('wrap:'):
+                        continue
                     if t['k'] == 'switch' and role == 'switch' and not t['on']['p']['proj']:
                         self._record_switch(res, ubb, t, mode, ty0, neg)
                     elif t['k'] == 'switch' and role == 'switch' and mode == 'val' and self._payload_proj(t['on']['p']['proj']) == 'bool':
@@ -213,6 +215,19 @@ class Flow:
                 if st['dst']['proj']:
                     continue
                 d = st['dst']['l']
+                if mode.startswith('wrap:'):
+                    # the value travels inside Some(..) / Ok(..): plain moves keep it wrapped, reading the payload unwraps it
+                    if rv['k'] == 'use' and rv['ops'][0]['k'] != 'const' and rv['ops'][0]['p']['l'] == l:
+                        pr = rv['ops'][0]['p']['proj']
+                        if not pr:
+                            work.append((d, mode, ty0, neg))
+                        elif self._payload_proj(pr) is not None:
+                            work.append((d, mode[5:], ty0, neg))
+                    continue
+                if rv['k'] == 'agg' and rv.get('ak') == 'adt' and rv.get('vname') in ('Some', 'Ok') and len(rv['ops']) == 1 and \
+                        rv['ops'][0]['k'] != 'const' and not rv['ops'][0]['p']['proj'] and rv['ops'][0]['p']['l'] == l:
+                    work.append((d, 'wrap:' + mode, ty0, neg))
+                    continue
                 if rv['k'] == 'use' and role.startswith('rv:use') and not rv['ops'][0]['p']['proj']:
                     work.append((d, mode, ty0, neg))
                 elif rv['k'] == 'use' and role.startswith('rv:use') and mode == 'val' and self._payload_proj(rv['ops'][0]['p']['proj']) is not None:
